@@ -10,7 +10,7 @@
 use std::collections::BTreeMap;
 use std::sync::Mutex;
 
-use e5_harness::*;
+use crate::harness::*;
 
 use crate::tags::{Client, Server};
 use hydro_lang::live_collections::stream::{ExactlyOnce, NoOrder, TotalOrder};
